@@ -137,6 +137,51 @@ func (w *world) liarCommit(vals *types.ValidatorSet, g int64, id types.BlockID, 
 	return types.NewCommit(g, 0, id, sigs)
 }
 
+// round0Commit assembles, from genuine signatures only, a round-0 "commit" of height g for block id:
+// F's validators precommit id (they sign whatever is asked); an honest validator contributes the one
+// precommit it really cast in the failed round 0 — for the canonical block (usable only if id is that
+// block) or for nil.  Some nil slots are left out (absent) as long as the signed power stays above 2/3.
+func (w *world) round0Commit(g int64, id types.BlockID, seed int64) *types.Commit {
+	rec := w.rec(g)
+	vals := rec.StateBefore.Validators
+	voters, ok := w.failed[g]
+	if !ok {
+		panic("c13: round0Commit for a height whose round 0 did not fail")
+	}
+	r := rand.New(rand.NewSource(seed))
+	sigs := make([]types.CommitSig, vals.Size())
+	var total, signed int64
+	for i, v := range vals.Validators {
+		total += v.VotingPower
+		ts := w.c.VoteTime(g, i)
+		switch {
+		case w.F[string(v.Address)]:
+			sigs[i] = w.c.SignVote(vals, i, tmproto.PrecommitType, g, 0, id, ts).CommitSig()
+		case voters[i]:
+			if !id.Equals(rec.BlockID) {
+				sigs[i] = types.NewCommitSigAbsent() // this validator's round-0 precommit is for the canonical block
+				continue
+			}
+			sigs[i] = w.c.SignVote(vals, i, tmproto.PrecommitType, g, 0, id, ts).CommitSig()
+		default:
+			sigs[i] = w.c.SignVote(vals, i, tmproto.PrecommitType, g, 0, types.BlockID{}, ts).CommitSig()
+		}
+		signed += v.VotingPower
+	}
+	for _, i := range r.Perm(vals.Size()) {
+		pw := vals.Validators[i].VotingPower
+		if sigs[i].BlockIDFlag == types.BlockIDFlagNil && 3*(signed-pw) > 2*total && r.Intn(3) == 0 {
+			sigs[i] = types.NewCommitSigAbsent()
+			signed -= pw
+		}
+	}
+	return types.NewCommit(g, 0, id, sigs)
+}
+
+func blockIDOf(b *types.Block) types.BlockID {
+	return types.BlockID{Hash: b.Hash(), PartSetHeader: b.MakePartSet(types.BlockPartSizeBytes).Header()}
+}
+
 func withLastCommit(b *types.Block, cm *types.Commit) *types.Block {
 	nb := cloneBlock(b)
 	nb.LastCommit = cm
@@ -174,8 +219,12 @@ func (w *world) build(p *PeerSpec, h int64) (blk *types.Block, noBlock, silent b
 		other := w.wrongTxsBlock(h - 1)
 		oid := types.BlockID{Hash: other.Hash(), PartSetHeader: other.MakePartSet(types.BlockPartSizeBytes).Header()}
 		return withLastCommit(w.rec(h).Block, w.liarCommit(prev.StateBefore.Validators, h-1, oid, prev.Commit)), false, false
-	case "wrongTxs":
+	case "wrongTxs", "forkBlock":
 		return w.wrongTxsBlock(h), false, false
+	case "nilBackedFork":
+		return withLastCommit(w.rec(h).Block, w.round0Commit(h-1, blockIDOf(w.wrongTxsBlock(h-1)), b.Arg)), false, false
+	case "weakCommit":
+		return withLastCommit(w.rec(h).Block, w.round0Commit(h-1, w.rec(h-1).BlockID, b.Arg)), false, false
 	case "wrongHeader":
 		nb := cloneBlock(w.rec(h).Block)
 		switch b.Op {
